@@ -82,7 +82,8 @@ package coreblock
 //@   assert before call#1 inheritBlockEncryption: sameslice(arg1, heads) && !arg2
 //@   assert before call#2 inheritBlockEncryption: sameslice(arg1, res(List, 1, 0)) && arg2 && res(inheritBlockEncryption, 1, 0) == nil && res(inheritBlockEncryption, 1, 2) == nil && res(List, 1, 2) == nil
 //@   assert before call#1 NewHeadSet: as(arg1, keys.HeadstoreDocKey).DocID == docID && as(arg1, keys.HeadstoreDocKey).FieldID == core.COMPOSITE_NAMESPACE && arg0 == res(Headstore, 1, 0)
-//@   ensures err == nil && enc == nil && called(inheritBlockEncryption, 1) && res(Option[string].HasValue, 1, 0) && docID != "" ==> called(inheritBlockEncryption, 2)
+//@   ensures err == nil && enc == nil ==> called(inheritBlockEncryption, 1)
+//@   ensures err == nil && enc == nil && res(Option[string].HasValue, 1, 0) && docID != "" ==> called(inheritBlockEncryption, 2)
 //@   tags C11
 //@ // every candidate block is examined; the first encrypted one decides (document-level only when asked)
 //@ func inheritBlockEncryption -> (enc, link, err)
